@@ -44,6 +44,24 @@ theorem size_bound_partial (l : Layout) (el : Nat) (sh : List Nat) (sz : Int)
     have := byteAddr_le_span (stepsAll el l.dims bs) bs idx hbox
     omega
 
+/-- Without any clause: every index inside the box spanned by the RESOLVED bounds (the static bounds, and
+`⌊extent / inner tile⌋` for a dynamic outermost bound) is covered by the size. This is the rule by which the
+oracle attributes an under-allocation to D32: a violation at an index below `⌊extent / inner⌋ · inner` in
+every dynamic dimension cannot be blamed on the floored bound. -/
+theorem size_bound_resolved_box (l : Layout) (el : Nat) (sh : List Nat) (sz : Int)
+    (hsz : allocSize l el sh = .ok sz) :
+    ∃ bs, boundsAll l.dims sh = .ok bs ∧ ∀ idx, InBox bs idx →
+      (l.offset : Int) * el + (byteAddr (stepsAll el l.dims bs) bs idx : Nat) + el ≤ sz := by
+  unfold allocSize at hsz
+  cases hb : boundsAll l.dims sh with
+  | error e => simp [hb] at hsz
+  | ok bs =>
+    simp only [hb, Except.ok.injEq] at hsz
+    refine ⟨bs, rfl, ?_⟩
+    intro idx hbox
+    have := byteAddr_le_span (stepsAll el l.dims bs) bs idx hbox
+    omega
+
 /-- D32: a dynamic extent that is not a multiple of the inner tile is under-allocated:
 `memref<?xi8, #tsl.tsl<[?, 4] -> (4, 1)>>` with runtime extent 6 gets 4 bytes, element 5 lives at byte 5. -/
 theorem size_bound_fails : ¬ size_bound_statement := by
@@ -110,6 +128,29 @@ theorem lifetime_covers : lifetime_statement .fixed := by
   have hvS := aliasSet_fixed_covers res (flat p) S hS v hal
   exact hle.2 t (mem_useTops hmem (usesAny_of_mem hv hvS))
 
+/-- The lifetimes are tight (fixed code): a buffer's lifetime ends at its allocation (it is never used) or
+at an operation that really uses the buffer or a view or cast of it — nothing is kept alive longer than
+the property requires, and the `memref.dealloc` directly follows the last real use. -/
+theorem lifetime_exact (p : Prog) (bs : List Buf) (h : lifetimes .fixed p = .ok bs) :
+    ∀ b ∈ bs, b.stop = b.start ∨ ∃ v n, Alias (flat p) b.res v ∧ (n, b.stop) ∈ flat p ∧ v ∈ n.ops := by
+  intro b hb
+  obtain ⟨res, req, fu, S, _, hres, _, _, _, hS, hstop⟩ := lifetimes_spec .fixed p bs h b hb
+  rcases endTime_mem (useTops S (flat p)) b.start with he | he
+  · left; rw [hstop, he]
+  · right
+    rw [← hstop] at he
+    obtain ⟨n, hn, hu⟩ := useTops_witness he
+    obtain ⟨w, hw, hwS⟩ := usesAny_witness hu
+    simp only [aliasSet] at hS
+    split at hS
+    · simp only [Except.ok.injEq] at hS
+      subst hS
+      refine ⟨w, n, ?_, hn, hw⟩
+      rw [hres]
+      exact aliasScan_sound (flat p) res (flat p) [res] (by intro v hv; simp at hv; subst hv; exact Alias.base)
+        (fun m hm => hm) w hwS
+    · simp at hS
+
 /-- D13: at the pinned commit a use through a subview of the cast is outside the lifetime
 (`alloc A; cast; subview; alloc B; cast; use B; use subview`: A's lifetime ends at the subview). -/
 theorem view_lifetime_orig_fails : ¬ lifetime_statement .orig := by
@@ -135,9 +176,9 @@ satisfies `SolverContract`: every buffer is placed with its own size inside the 
 `[start, start + capacity]` of its memory, and whenever a buffer `A` — or any view or cast of it —
 is still used at or after the allocation of a later buffer `B` of the same memory (and `B` is used
 at all), the two address ranges are disjoint. -/
-theorem minimalloc_safe (mems : List Mem) (sol : Nat → List Nat) (p : Prog) (r : MiniResult)
+theorem minimalloc_safe_of_solverSafe (mems : List Mem) (sol : Nat → List Nat) (p : Prog) (r : MiniResult)
     (h : miniMallocate .fixed mems sol p = .ok r)
-    (hc : ∀ m mem, mems[m]? = some mem → SolverContract (subset r.bufs m) mem.cap (sol m)) :
+    (hc : ∀ m mem, mems[m]? = some mem → SolverSafe (subset r.bufs m) mem.cap (sol m)) :
     r.placed.map (·.1) = r.bufs ∧
     (∀ x ∈ r.placed, x.2.size = x.1.size ∧ ∃ mem, mems[x.1.mem]? = some mem ∧
       mem.start ≤ x.2.addr ∧ x.2.addr + x.2.size ≤ mem.start + mem.cap) ∧
@@ -200,6 +241,93 @@ theorem minimalloc_safe (mems : List Mem) (sol : Nat → List Nat) (p : Prog) (r
           simp only at this ⊢
           omega
 
+/-- The same under the full `SolverContract` (the form in which the external solver is assumed). -/
+theorem minimalloc_safe (mems : List Mem) (sol : Nat → List Nat) (p : Prog) (r : MiniResult)
+    (h : miniMallocate .fixed mems sol p = .ok r)
+    (hc : ∀ m mem, mems[m]? = some mem → SolverContract (subset r.bufs m) mem.cap (sol m)) :
+    r.placed.map (·.1) = r.bufs ∧
+    (∀ x ∈ r.placed, x.2.size = x.1.size ∧ ∃ mem, mems[x.1.mem]? = some mem ∧
+      mem.start ≤ x.2.addr ∧ x.2.addr + x.2.size ≤ mem.start + mem.cap) ∧
+    (∀ x ∈ r.placed, ∀ y ∈ r.placed, x.1.mem = y.1.mem → x.1.start < y.1.start →
+      UsedAtOrAfter p x.1.res y.1.start → UsedAtOrAfter p y.1.res y.1.start →
+      x.2.addr + x.2.size ≤ y.2.addr ∨ y.2.addr + y.2.size ≤ x.2.addr) :=
+  minimalloc_safe_of_solverSafe mems sol p r h (fun m mem hm => solverSafe_of_contract (hc m mem hm))
+
+/-! ## A solver that is proved: first fit -/
+
+/-- The first-fit solver (the stand-in for the absent `minimalloc` package that the pass runs with in
+this environment, `harness/compat.py`; model `firstFit`, compared with the stub on every solver call of
+every run) satisfies the solver contract on every problem it answers: every list of buffers, lifespans,
+sizes, non-zero alignments and capacity. So `SolverContract` is satisfiable and, for this solver, proved. -/
+theorem firstfit_contract (bufs : List Buf) (cap : Nat) (offs : List Nat)
+    (h : firstFit bufs cap = .ok offs) (hal : ∀ b ∈ bufs, 0 < b.align) :
+    SolverContract bufs cap offs := by
+  obtain ⟨⟨hlen, hcap, hpair⟩, halign⟩ := firstFit_spec bufs cap offs h
+  refine ⟨hlen, ?_, hpair⟩
+  intro p hp
+  exact ⟨halign p hp (hal p.1 (List.of_mem_zip hp).1), hcap p hp⟩
+
+/-- The whole pass with the first-fit solver plugged in, no hypothesis about a solver left: for every
+program and memory table on which it succeeds, every buffer keeps its size inside the window of its
+memory, and buffers that are live at the same time (through any views or casts, at any nesting depth)
+get disjoint address ranges. -/
+theorem minimalloc_firstfit_safe (mems : List Mem) (p : Prog) (r : MiniResult)
+    (h : miniMallocateFF .fixed mems p = .ok r) :
+    r.placed.map (·.1) = r.bufs ∧
+    (∀ x ∈ r.placed, x.2.size = x.1.size ∧ ∃ mem, mems[x.1.mem]? = some mem ∧
+      mem.start ≤ x.2.addr ∧ x.2.addr + x.2.size ≤ mem.start + mem.cap) ∧
+    (∀ x ∈ r.placed, ∀ y ∈ r.placed, x.1.mem = y.1.mem → x.1.start < y.1.start →
+      UsedAtOrAfter p x.1.res y.1.start → UsedAtOrAfter p y.1.res y.1.start →
+      x.2.addr + x.2.size ≤ y.2.addr ∨ y.2.addr + y.2.size ≤ x.2.addr) := by
+  unfold miniMallocateFF at h
+  split at h
+  · simp at h
+  · rename_i bs hbs
+    split at h
+    · simp at h
+    · split at h
+      · simp at h
+      · rename_i hff
+        have hb := miniMallocate_bufs _ _ _ _ _ h
+        rw [hbs] at hb
+        have hbs' : bs = r.bufs := Except.ok.inj hb
+        apply minimalloc_safe_of_solverSafe mems (ffSol mems bs) p r h
+        intro m mem hm
+        have hlt : m < mems.length := by
+          rcases Nat.lt_or_ge m mems.length with hlt | hge
+          · exact hlt
+          · rw [List.getElem?_eq_none hge] at hm; simp at hm
+        obtain ⟨offs, hoffs⟩ := ffErrors_ok mems bs mems.length (by cases ‹Unit›; exact hff) m hlt mem hm
+        have hsol : ffSol mems bs m = offs := by simp [ffSol, hm, hoffs]
+        rw [hsol, ← hbs']
+        exact (firstFit_spec _ _ _ hoffs).1
+
+/-- The `while True` search of the first-fit solver terminates: the fuel of the model
+(`#placed + 1` rounds) is never used up, so the solver either answers or reports that the capacity is
+exceeded — for every problem. -/
+theorem firstfit_total (bufs : List Buf) (cap : Nat) :
+    (∃ offs, firstFit bufs cap = .ok offs) ∨ firstFit bufs cap = .error .solverFull := by
+  unfold firstFit
+  cases h : firstFitAux cap bufs [] with
+  | ok offs => exact Or.inl ⟨offs, rfl⟩
+  | error e =>
+    right
+    rcases firstFitAux_err cap bufs [] e h with he | he
+    · rw [he]
+    · exact absurd (he ▸ h) (firstFitAux_fuel cap bufs [])
+
+/-! ## The alias scan of the model never gives up on a program in SSA order -/
+
+/-- `lifetimes` (fixed code) never answers `notClosed` on a program whose operations are in SSA order
+(`WellOrd`: no operation uses a result of itself or of a later operation): the single forward pass of
+the model computes the complete closure under casts and views, like the recursive walk of the code. -/
+theorem lifetimes_closed (p : Prog) (h : WellOrd (flat p)) : lifetimes .fixed p ≠ .error .notClosed := by
+  unfold lifetimes
+  have h1 := buffersFrom_not_notClosed (flat p) h p 0
+  cases hb : buffersFrom .fixed (flat p) p 0 with
+  | error e => simp only; intro he; apply h1; rw [hb]; exact he
+  | ok bs => simp only; exact attachCasts_not_notClosed bs (firstUses p)
+
 /-- Alignment in minimalloc / auto mode at full strength: every placed address is a multiple of the
 buffer's alignment. FALSE of the code: the solver aligns the offset, the pass adds `memory.start`. -/
 def minimalloc_aligned_statement : Prop :=
@@ -257,6 +385,44 @@ theorem minimalloc_aligned_fails : ¬ minimalloc_aligned_statement := by
   revert this
   decide
 
+/-- The executable SSA-order check that the harness evaluates on every generated program implies the
+hypothesis `WellOrd` of `lifetimes_closed`. -/
+theorem wellord_checker_sound (l : List (Node × Nat)) (h : wellOrdB l = true) : WellOrd l :=
+  wellOrdB_sound l h
+
+/-- With the proposed fix FC11a (`MiniMallocate` refuses a memory whose start address is not a multiple of
+the alignment of one of its buffers; model `miniMallocateChecked`) the clause `StartAligned` is established
+by the code: every placed address is a multiple of the buffer's (non-zero) alignment. -/
+theorem minimalloc_aligned_checked (mems : List Mem) (sol : Nat → List Nat) (p : Prog) (r : MiniResult)
+    (h : miniMallocateChecked .fixed mems sol p = .ok r)
+    (hc : ∀ m mem, mems[m]? = some mem → SolverContract (subset r.bufs m) mem.cap (sol m)) :
+    ∀ x ∈ r.placed, 0 < x.1.align → x.2.addr % x.1.align = 0 := by
+  unfold miniMallocateChecked at h
+  split at h
+  · simp at h
+  · rename_i r0 hr0
+    split at h
+    · rename_i hsa
+      simp only [Except.ok.injEq] at h
+      subst h
+      intro x hx hal
+      obtain ⟨hxb, mem, off, hmem, hz, haddr⟩ := placed_addr_form _ _ _ _ _ hr0 x hx
+      obtain ⟨_, heach, _⟩ := hc x.1.mem mem hmem
+      have h1 := (heach _ hz).1
+      unfold startAligned at hsa
+      rw [List.all_eq_true] at hsa
+      have h2 := hsa x.1 hxb
+      simp only [hmem, Bool.or_eq_true, beq_iff_eq] at h2
+      have h2' : mem.start % x.1.align = 0 := by
+        rcases h2 with h2 | h2
+        · omega
+        · exact h2
+      rw [haddr]
+      simp only at h1
+      exact Nat.mod_eq_zero_of_dvd
+        ((Nat.dvd_add_iff_right (Nat.dvd_of_mod_eq_zero h1)).1 (Nat.dvd_of_mod_eq_zero h2'))
+    · simp at h
+
 /-- The executable contract check that the harness runs on every captured solver answer implies
 the `SolverContract` hypothesis of the theorems above. -/
 theorem contract_checker_sound (bufs : List Buf) (cap : Nat) (offs : List Nat)
@@ -290,6 +456,32 @@ example :
       some [⟨2, 2, 8, 20, 4, 0, 3⟩, ⟨5, 5, 7, 20, 4, 0, 6⟩] ∧
     contractOk [⟨2, 2, 8, 20, 4, 0, 3⟩, ⟨5, 5, 7, 20, 4, 0, 6⟩] 100 [0, 20] = true ∧
     contractOk [⟨2, 2, 8, 20, 4, 0, 3⟩, ⟨5, 5, 7, 20, 4, 0, 6⟩] 100 [0, 0] = false := by
+  decide
+
+/-- `firstfit_contract`, `minimalloc_firstfit_safe`, `lifetimes_closed`: the D13 program with the first-fit
+solver: lifetimes `[2,8]`, `[5,7]` overlap, the solver answers offsets 0 and 20, the program is in SSA order -/
+example :
+    let p : Prog := [.op [⟨.other, [], [0]⟩] false, .op [⟨.other, [], [1]⟩] false,
+      .alloc 2 ⟨some 0, some 20, 4⟩ (some (some 3)), .op [⟨.ucast, [2], [3]⟩] false,
+      .op [⟨.view, [3], [4]⟩] false, .alloc 5 ⟨some 0, some 20, 4⟩ (some (some 6)),
+      .op [⟨.ucast, [5], [6]⟩] false, .op [⟨.other, [6], []⟩] false, .op [⟨.other, [4], []⟩] false,
+      .op [⟨.other, [], []⟩] true]
+    firstFit [⟨2, 2, 8, 20, 4, 0, 3⟩, ⟨5, 5, 7, 20, 4, 0, 6⟩] 100 = .ok [0, 20] ∧
+    (miniMallocateFF .fixed [⟨0, 100⟩] p).toOption.map (fun r => r.placed.map (·.2.addr)) = some [0, 20] ∧
+    WellOrd (flat p) := by
+  refine ⟨by decide, by decide, ?_⟩
+  simp [WellOrd, flat, flatFrom]
+
+/-- first fit reuses an address as soon as the half-open lifespans are disjoint (upstream minimalloc test) -/
+example : firstFit [⟨0, 2, 6, 13, 10, 0, 0⟩, ⟨1, 4, 7, 13, 10, 0, 0⟩, ⟨2, 8, 10, 13, 14, 0, 0⟩] 100 = .ok [0, 20, 0] := by
+  decide
+
+/-- `minimalloc_aligned_checked`: FC11a refuses memory start 4 for alignment 8 and accepts start 8 -/
+example :
+    let p : Prog := [.alloc 0 ⟨some 0, some 8, 8⟩ (some (some 1)), .op [⟨.ucast, [0], [1]⟩] false,
+      .op [⟨.other, [1], []⟩] false, .op [⟨.other, [], []⟩] true]
+    miniMallocateChecked .fixed [⟨4, 100⟩] (fun _ => [0]) p = .error .misalignedStart ∧
+    (miniMallocateChecked .fixed [⟨8, 100⟩] (fun _ => [0]) p).toOption.map (fun r => r.placed.map (·.2.addr)) = some [8] := by
   decide
 
 end SnaxVerif.C11
